@@ -80,3 +80,18 @@ package protocol
 //@   ensures @leaf ? err == nil ==> u(pub.key) == u(certs[0].PublicKey)
 //@   ensures @chainlen ? err == nil ==> len(pub.chain) == len(certs) && len(certs) > 0
 //@   ensures @cleared ? err != nil ==> pub.key == old(pub.key)
+
+// a COSE-encoded key is rejected only where decoding its CBOR or reading the key out of the
+// COSE structure fails (completeness for C09: cose.NewKey emits coordinates with leading
+// zero octets stripped, so a stricter check here refuses keys the encoder produces)
+//@ func protocol.PublicKey.parseCose
+//@   params pub
+//@   local err = call:cbor.Unmarshal#1 | extract1:call:cose.Key.Public#1
+//@   local pubkey = extract0:call:cose.Key.Public#1
+//@   props C09 C04 C10(sweep)
+//@   sweep bounds,panic,make,nilmem
+//@   callsites Errorf 1
+//@   callsites errors.New 0
+//@   callsites Unmarshal 1
+//@   callsites Key.Public 1
+//@   ensures @key ? err == nil ==> u(pub.key) == u(pubkey)
